@@ -147,9 +147,13 @@ func Generate(g *grammar.Grammar, w Writer, opts Options) error {
 		src := buf.String()
 		switch g.TargetLang {
 		case "go":
-			src = FormatGo(outName, ExtractGoImports(src))
+			if strings.HasSuffix(outName, ".go") { // not the Bison export
+				src = FormatGo(outName, ExtractGoImports(src))
+			}
 		case "ts":
-			src = ExtractTsImports(src)
+			if strings.HasSuffix(outName, ".ts") {
+				src = ExtractTsImports(src)
+			}
 		}
 		if err := w.Write(outName, src); err != nil {
 			return err
